@@ -10,6 +10,9 @@ import sys
 sys.path.insert(0, os.path.dirname(os.path.abspath(__file__)))
 import core  # noqa: E402
 
+# the library under test: /repo's working tree (UNYT_REPO overrides, for scratch copies)
+sys.path.insert(0, core.REPO)
+
 
 def replay(path):
     """Re-execute a replay file against the current tree: exit 1 if it still fails."""
@@ -54,6 +57,11 @@ def main():
     signal.signal(signal.SIGALRM, on_alarm)
     signal.alarm(limit)
     core.quiet_numpy()
+    import unyt
+
+    if not os.path.abspath(unyt.__file__).startswith(os.path.abspath(core.REPO) + os.sep):
+        print(f"unyt imported from {unyt.__file__}, expected under {core.REPO}", file=sys.stderr)
+        sys.exit(2)
     mod = importlib.import_module(a.prop.lower())
     rc = mod.run(a.tier, seed)
     sys.exit(rc)
